@@ -17,13 +17,14 @@ func caseSeed(seed int64, scenario string, idx int) int64 {
 
 // Scenarios by name.
 var Scenarios = map[string]func(seed int64, idx int) *Result{
-	"stress":   func(s int64, i int) *Result { return RunStress(s, i, false) },
-	"hostile":  func(s int64, i int) *Result { return RunStress(s, i, true) },
-	"sync":     RunSync,
-	"flood":    RunFlood,
-	"timer":    RunTimer,
-	"ctx":      RunCtx,
-	"validate": RunValidate,
+	"stress":     func(s int64, i int) *Result { return RunStress(s, i, false) },
+	"hostile":    func(s int64, i int) *Result { return RunStress(s, i, true) },
+	"sync":       RunSync,
+	"flood":      RunFlood,
+	"timer":      RunTimer,
+	"ctx":        RunCtx,
+	"validate":   RunValidate,
+	"commitsync": RunCommitSync,
 }
 
 // ChildMain runs cases [from,to) of a scenario and prints one "RT|{json}" line per case.
